@@ -152,7 +152,7 @@ class Inotify:
         self._inotify_fd = inotify_fd
         self._lock = threading.Lock()
         self._closed = False
-        self._is_reading = True
+        self._is_reading = False
         self._kill_r, self._kill_w = os.pipe()
 
         # _check_inotify_fd will return true if we can read _inotify_fd without blocking
@@ -186,10 +186,15 @@ class Inotify:
         self._event_mask = event_mask
         self._follow_symlink = follow_symlink
         self._is_recursive = recursive
-        if os.path.isdir(path):
-            self._add_dir_watch(path, event_mask, recursive=recursive)
-        else:
-            self._add_watch(path, event_mask)
+        try:
+            if os.path.isdir(path):
+                self._add_dir_watch(path, event_mask, recursive=recursive)
+            else:
+                self._add_watch(path, event_mask)
+        except Exception:
+            # Do not leak the inotify descriptor and the wake-up pipe when the watch cannot be set up.
+            self._close_resources()
+            raise
         self._moved_from_events: dict[int, InotifyEvent] = {}
 
     @property
@@ -335,6 +340,10 @@ class Inotify:
             break
 
         with self._lock:
+            if self._closed:
+                # close() ran since the descriptors were last looked at: they are gone.
+                return []
+
             event_list = []
             for wd, mask, cookie, name in Inotify._parse_event_buffer(event_buffer):
                 if wd == -1:
